@@ -1,5 +1,6 @@
 import SygmaModel.Drv.Util
 import SygmaModel.Model.C14
+import SygmaModel.Drv.C03
 namespace Sygma.Drv.C14
 open Sygma.C14
 
@@ -101,6 +102,22 @@ def handle (op : String) (args : List String) (impl : String) : Option Verdict :
       let allIdx := (mems.filterMap natList).flatten
       let part := allIdx.mergeSort == (pending tg (psx.map (·.1))).map (·.1)
       return ⟨m, nonEmpty && distinct && part && impl != "err", s!"exec:signed={min (signed msgId bs).length 3}"⟩
+  -- the ids the EVM signing processes actually RUN under (real NewSigning + real coordinator; op shared with C19):
+  -- `<messageID>-<batch index>` for every non-empty batch, pairwise distinct
+  | "sigsession", [cap, tg, msgId, ps] => some <| Id.run do
+    let some cap := cap.toNat? | return bad
+    let some tg := tg.toNat? | return bad
+    let some psx := (items ps ";").mapM parseP | return bad
+    match batchesOpt cap tg psx with
+    | none => return ⟨"-", impl == "-", "sigsession:lookup-error"⟩
+    | some bs =>
+      let sids := ((signed msgId bs).map (·.1)).mergeSort (· ≤ ·)
+      let m := joinOr sids ","
+      let distinct := (items impl ",").eraseDups.length == (items impl ",").length
+      return ⟨m, impl == m && distinct, s!"sigsession:batches={min sids.length 3}"⟩
+  -- what reaches ExecuteProposals after executed-status ticks that precede the signature (real watchExecution; op and
+  -- model shared with C03): the batch that was hashed, with its own gas limit, unchanged
+  | "sigwatch", args => (Sygma.Drv.C03.handle "sigwatch" args impl).map fun v => { v with tag := "c14:" ++ v.tag }
   | "session", [msgId, i] => some <| Id.run do
     let some i := i.toNat? | return bad
     let m := sessionId msgId i
